@@ -51,6 +51,20 @@ func regularSpecs() []regularSpec {
 			out = append(out, regularSpec{fmt.Sprintf("f=%d,g=%d,top=%v", f, sc.g, sc.top), uniqSorted(keys)})
 		}
 	}
+	// fan-outs of consecutive bytes inside (or across) one 16-byte block: 257-bit nodes whose labels share a high nibble
+	for _, start := range []int{0x00, 0x05, 0x60, 0x61, 0xf0, 0xf5, 0x7a} {
+		for f := 10; f <= 17; f++ {
+			for _, g := range []int{1, 2, 11} {
+				var keys []string
+				for i := 0; i < f && start+i < 256; i++ {
+					for j := 0; j < g; j++ {
+						keys = append(keys, string([]byte{byte(start + i), byte(0x30 + j)}))
+					}
+				}
+				out = append(out, regularSpec{fmt.Sprintf("block start=%#x,f=%d,g=%d", start, f, g), uniqSorted(keys)})
+			}
+		}
+	}
 	// nibble-level regular trees: f first nibbles x g second nibbles (17-bit and short nodes only)
 	for f := 1; f <= 16; f++ {
 		for g := 1; g <= 16; g++ {
